@@ -505,6 +505,10 @@ impl TypeChecker {
                     self.check_constraints(*span, ctx, target_ty)?;
                 } else {
                     self.unify(*span, ctx, expression_ty, target_ty)?;
+                    // Unifying two types that are already the same does not look at the
+                    // constraints we just added - `a -= a`.
+                    self.check_constraints(*span, ctx, expression_ty)?;
+                    self.check_constraints(*span, ctx, target_ty)?;
                 }
                 self.unify_option(*span, ctx, expression_ret, target_ret)
             }
